@@ -4,6 +4,8 @@ package tk
 
 import (
 	"fmt"
+	"strings"
+	"sync"
 	"time"
 
 	"gitee.com/Trisia/gotlcp/STACK"
@@ -79,7 +81,12 @@ func BuildSTACK(e EPConfig, reg *Registry) *STACK.Config {
 		m := reg.mapSTACK()
 		sc, ok := m[e.Cache]
 		if !ok {
-			sc = STACK.NewLRUSessionCache(e.CacheCap)
+			if strings.HasPrefix(e.Cache, "ptr:") {
+				// a user-supplied cache that keeps the very object it is handed (the interface allows it)
+				sc = &ptrCacheSTACK{m: map[string]*STACK.SessionState{}}
+			} else {
+				sc = STACK.NewLRUSessionCache(e.CacheCap)
+			}
 			m[e.Cache] = sc
 		}
 		c.SessionCache = sc.(STACK.SessionCache)
@@ -179,3 +186,26 @@ func guardSTACK(f func() error) (err error, pan string) {
 }
 
 var _ = time.Second
+
+// ptrCacheSTACK is a SessionCache written by a user of the library: it stores the pointer it is given.
+type ptrCacheSTACK struct {
+	mu sync.Mutex
+	m  map[string]*STACK.SessionState
+}
+
+func (c *ptrCacheSTACK) Get(k string) (*STACK.SessionState, bool) {
+	c.mu.Lock()
+	defer c.mu.Unlock()
+	s, ok := c.m[k]
+	return s, ok && s != nil
+}
+
+func (c *ptrCacheSTACK) Put(k string, s *STACK.SessionState) {
+	c.mu.Lock()
+	defer c.mu.Unlock()
+	if s == nil {
+		delete(c.m, k)
+		return
+	}
+	c.m[k] = s
+}
